@@ -116,6 +116,8 @@ func init() {
 		var samples []any
 		var heldFrame, heldCopy []byte
 		var heldCase c01Case
+		chain := jt808.NewJTMessage()
+		var chainPrev c01Case
 		err := readND(a[0], func(i int, raw []byte) error {
 			var c c01Case
 			if err := jsonUnmarshal(raw, &c); err != nil {
@@ -125,6 +127,25 @@ func init() {
 			got, sv, p := encodeLikeUser(c.Src, c.ID, c.Pser, c.Body)
 			cls := fmt.Sprintf("ver=%d frag=%d len%s", sv.Ver, sv.Frag, lenClass(len(c.Body)))
 			classes[cls]++
+			// the same through one long-lived JTMessage that decodes every source frame and encodes every reply in turn:
+			// what it decoded or encoded before must not show
+			if p == "" {
+				var again []byte
+				var derr error
+				pn := protect(func() {
+					derr = chain.Decode(exact(c.Src))
+					if derr == nil {
+						chain.Header.ReplyID = uint16(c.ID)
+						chain.Header.PlatformSerialNumber = uint16(c.Pser)
+						again = chain.Header.Encode(exact(c.Body))
+					}
+				})
+				if pn != "" || derr != nil || !bytes.Equal(again, got) {
+					out.put(mismatch{"reused-message-differs " + cls, fmt.Sprintf("panic=%q err=%v: reused %x fresh %x", pn, derr, again, got), []c01Case{chainPrev, c}})
+					chain = jt808.NewJTMessage()
+				}
+				chainPrev = c
+			}
 			// a frame that was handed out stays what it was while later frames are encoded (it may still be queued for writing)
 			if heldFrame != nil && !bytes.Equal(heldFrame, heldCopy) {
 				out.put(mismatch{"encoded-frame-changed-by-a-later-encode " + cls, fmt.Sprintf("was %x, is %x after encoding the next frame", heldCopy, heldFrame), []c01Case{heldCase, c}})
@@ -348,6 +369,8 @@ func init() {
 		n, acc := 0, 0
 		classes := map[string]int{}
 		var samples []any
+		chain2 := jt808.NewJTMessage()
+		var chain2Prev c02Case
 		var heldMsg *jt808.JTMessage
 		var heldBody []byte
 		var heldPhone string
@@ -361,6 +384,22 @@ func init() {
 			n++
 			got, gm := decodeView(c.F)
 			cls := c.Kind + map[bool]string{true: " accepted", false: " rejected"}[c.D.Ok]
+			// the same frame through one long-lived JTMessage that has decoded every earlier frame and encoded a reply after each
+			{
+				var rerr error
+				pn := protect(func() { rerr = chain2.Decode(exact(c.F)) })
+				rv := DecView{Ok: rerr == nil && pn == ""}
+				if rv.Ok {
+					rv = viewOf(chain2)
+					rv.Ok = true
+					protect(func() { chain2.Header.ReplyID = 0x8001; chain2.Header.Encode([]byte{1, 2, 3, 4, 5}) })
+				}
+				if pn != "" || rv.Ok != got.Ok || (rv.Ok && !sameView(rv, got)) {
+					out.put(mismatch{"reused-message-differs " + c.Kind, fmt.Sprintf("panic=%q reused ok=%v %+v fresh ok=%v %+v", pn, rv.Ok, rv, got.Ok, got), []c02Case{chain2Prev, c}})
+					chain2 = jt808.NewJTMessage()
+				}
+				chain2Prev = c
+			}
 			// a message that was decoded stays what it was while later frames are decoded
 			if heldMsg != nil && (!bytes.Equal(heldMsg.Body, heldBody) || heldMsg.Header.TerminalPhoneNo != heldPhone || int(heldMsg.Header.ID) != heldID) {
 				out.put(mismatch{"decoded-message-changed-by-a-later-decode " + c.Kind,
